@@ -38,6 +38,7 @@ def scenarios(pid, tier, seed):
         sc += comm_scen.fam_limit(seed, 60 if big else 15, 2)
         sc += comm_scen.fam_time(seed, 150 if big else 40, 2)
         sc += comm_scen.fam_text(seed, 400 if big else 80, 2)
+        sc += comm_scen.fam_eintr(seed, 300 if big else 60, 3)
     elif pid == "C03":
         sc += comm_scen.fam_limit(seed, 900 if big else 150, 4 if big else 2)
         sc += comm_scen.fam_data(seed, 60 if big else 15, 2)
